@@ -128,7 +128,7 @@ def scores(rng, min_pos=0, min_neg=0, maxn=40, kinds=None, big=False):
             pos, neg = rng.integers(-4, 9, npos) * (sc_ / 10), rng.integers(-8, 5, nneg) * (sc_ / 10)
         else:
             pos, neg = rng.uniform(-1, 1, npos) * sc_, rng.uniform(-1, 1, nneg) * sc_
-        if rng.random() < 0.35 and npos and nneg:  # separated either way: midpoints of the two classes' extremes overflow
+        if rng.random() < 0.5 and npos and nneg:  # separated either way: midpoints of the two classes' extremes overflow
             allv = np.sort(np.concatenate([pos, neg]))
             pos, neg = (allv[nneg:], allv[:nneg]) if rng.random() < 0.5 else (allv[:npos], allv[npos:])
     elif kind == "subnormal":
